@@ -103,7 +103,7 @@ def count_hooks(t):
     return sum(1 for n in gf.walk(t) if is_hook(n))
 
 
-inner_text = st.one_of(trees(False, 5).map(gf.render), st.sampled_from(['1+', 'SUM(1,', '1/0', 'nosuch', '#N/A', '10-3-2', 'SUM(1,2,3)*4+B2', '"a"&"b"&v_s', '{1,2;3,4}', 'IF(1<2,v_a,0)']))
+inner_text = st.one_of(trees(False, 5).map(gf.render), st.sampled_from(['1+', 'SUM(1,', '1/0', 'nosuch', '#N/A', 'SQRT(-1)+1', 'LEFT(1,2,3,4)', 'v_s+1', '10-3-2', 'SUM(1,2,3)*4+B2', '"a"&"b"&v_s', '{1,2;3,4}', 'IF(1<2,v_a,0)']))
 
 
 @st.composite
@@ -116,7 +116,7 @@ def nested_case(draw):
     if depth2:
         fb = gf.render(['bin', '+', ['call', 'H', []], draw(trees(False, 3))]) if draw(st.booleans()) else 'ID(X9)&' + fb
     return {'fa': fa, 'fb': fb, 'fc': draw(inner_text), 'same': draw(st.booleans()), 'order': draw(st.sampled_from(['AB', 'BA'])), 'ret': draw(st.sampled_from(['const', 'inner', 'inner'])),
-            'mode': draw(st.sampled_from([0, 0, 1, 2]))}
+            'mode': draw(st.sampled_from([0, 0, 1, 2])), 'handler': draw(st.sampled_from([False, False, True]))}
 
 
 def derive(ret, outcome):
@@ -165,7 +165,15 @@ def check_nested(case):
         target = holder['A'] if inner_on_a else holder['B']
         depth[0] += 1
         try:
-            r = target.parse(fb)
+            if case.get('handler'):
+                # the callback is busy handling a spreadsheet error of its own when it evaluates the other formula
+                from ..env import errors as _errors
+                try:
+                    raise _errors().NOT_AVAILABLE
+                except Exception:
+                    r = target.parse(fb)
+            else:
+                r = target.parse(fb)
         finally:
             depth[0] -= 1
         if not same_outcome(r, b_solo):
@@ -189,7 +197,7 @@ def check_nested(case):
 
 
 def nested_classes(case):
-    out = ['same-parser' if case['same'] else 'other-parser', 'order:' + case['order'], 'listener-mode:%d' % case.get('mode', 0)]
+    out = ['same-parser' if case['same'] else 'other-parser', 'order:' + case['order'], 'listener-mode:%d' % case.get('mode', 0)] + (['inside-handler'] if case.get('handler') else [])
     toks = gf.tokens(case['fa'])
     hook_toks = [i for i, t in enumerate(toks) if t in ('X9', 'v_hook', 'X1:Y2') or t.startswith('H(') or t.startswith('HOOKED(')]
     if hook_toks and hook_toks[0] < len(toks) - 2:
@@ -409,6 +417,39 @@ def check_deep(case):
                                 list(shallow(g)), list(shallow(w)))
 
 
+# ---------------------------------------------------------------- the first evaluations of a process, made by several threads at once
+
+COLD_FORMULAS = ['SUM(1,2)+LEN("ab")', 'IF(1<2,"x","y")&UPPER("q")', 'MAX({1,5,3})*ABS(-2)', 'ROUND(2.567,1)+DATE(2020,1,1)-DATE(2019,12,31)', 'CONCATENATE("a",1)&TEXTJOIN("-",TRUE,1,2)', 'ISNUMBER(1)', '1+', 'nosuch+1']
+
+
+def enum_cold(tier, shard, nshards):
+    n = 2 if tier == 'quick' else 12
+    for k in range(n):
+        i = shard * n + k
+        yield {'threads': 2 + i % 3, 'import_in_thread': i % 2 == 1, 'first': i % len(COLD_FORMULAS)}
+
+
+def check_cold(case):
+    import json
+    import os
+    import subprocess
+    here = os.path.join(os.path.dirname(os.path.dirname(os.path.abspath(__file__))), 'cold_threads.py')
+    k = case['first']
+    formulas = COLD_FORMULAS[k:] + COLD_FORMULAS[:k]
+    p = subprocess.run([sys.executable, here, snapshot.directory()], input=json.dumps({'formulas': formulas, 'threads': case['threads'], 'import_in_thread': case['import_in_thread']}),
+                       capture_output=True, text=True, timeout=300, env=dict(os.environ, PYTHONHASHSEED='0', PYTHONDONTWRITEBYTECODE='1'))
+    if p.returncode != 0:
+        raise RuntimeError('cold-start child failed: %s' % p.stderr[-400:])
+    res = json.loads(p.stdout)
+    d = 'a brand-new interpreter, %d threads with a parser each making the first evaluations of the process together (library imported %s): ' % (case['threads'], 'by the threads' if case['import_in_thread'] else 'beforehand')
+    if res['errors'] or any(res['alive']):
+        raise Violation(d + 'a thread raised or did not finish: %r' % (res['errors'] or 'still running after 60 s',), res['errors'], [])
+    for i, got in enumerate(res['threads']):
+        for f, g, w in zip(formulas, got, res['solo']):
+            if g != w:
+                raise Violation(d + 'thread %d evaluated %r to %s; evaluated afterwards, alone, it gives %s' % (i, f, g, w), g, w)
+
+
 # ---------------------------------------------------------------- free-running threads (thorough)
 
 def enum_free(tier, shard, nshards):
@@ -613,7 +654,7 @@ def check_bindings(case):
 
 LAWS = [
     Law('nested', check_nested, strategy=nested_case(), key=nested_key, classes=nested_classes, quick=3000, thorough=200000, shards=(16, 16),
-        required=('same-parser', 'other-parser', 'order:AB', 'order:BA', 'continues-after-hook', 'hook-first', 'hook:call', 'hook:cell', 'hook:var', 'hook:range', 'depth2', 'listener-mode:1', 'listener-mode:2'),
+        required=('same-parser', 'other-parser', 'inside-handler', 'order:AB', 'order:BA', 'continues-after-hook', 'hook-first', 'hook:call', 'hook:cell', 'hook:var', 'hook:range', 'depth2', 'listener-mode:1', 'listener-mode:2'),
         nontrivial=lambda c: 'continues-after-hook' in nested_classes(c) and len(c['fb']) >= 3,
         rule='outer formula on parser A with 1-3 interposition points (a custom function, or a listener on a cell / range / variable / function event) at generated structural positions; at each point a complete evaluation of a second formula runs on pre-built parser B '
              '(or on A itself), whose own callback evaluates a third formula (depth 2); both construction orders; listeners either evaluate and then answer, answer first and evaluate afterwards, or evaluate and answer nothing; oracle: every inner outcome equals that formula\'s solo outcome and A\'s outcome equals the solo run in which the callbacks return the same values without evaluating; '
@@ -626,6 +667,9 @@ LAWS = [
     Law('threads_deep_operand', check_deep, enumerate=enum_deep, shards=(16, 16), key=lambda c: 'thread-interleaving',
         rule='thread 0 evaluates 1-2 short formulas, thread 1 one formula with an operand nested 650 levels deep (beyond what the default recursion limit lets the operators handle, so that alone it gives one and the same outcome on any stack); '
              'the baton suspends thread 0 inside its first evaluation, lets thread 1 get 200-9200 lines into the long one, then lets thread 0 finish: every formula must give the outcome (error code / kind and length of the result) it gives alone; 48 schedules in quick, 640 in thorough'),
+    Law('cold_start_threads', check_cold, enumerate=enum_cold, shards=(16, 16), key=lambda c: 'thread-interleaving', guard=400,
+        rule='a brand-new interpreter process in which 2-4 threads, each with its own parser, make the very first evaluations of the process at the same moment (the library imported beforehand or by the threads themselves): '
+             'each of 8 formulas must give every thread the outcome it gives afterwards, alone; 32 processes in quick, 192 in thorough (whatever is initialised lazily, once per process, is initialised here under contention)'),
     Law('threads_free', check_free, enumerate=enum_free, shards=(1, 4), key=lambda c: 'thread-interleaving',
         rule='thorough only: 8 free-running threads x distinct parsers x 200 formulas with a 1 microsecond switch interval; every outcome equals the solo outcome'),
     Law('cross_parser_state', check_cross_state, strategy=cross_case, classes=cross_classes, required=('reversed-range', 'absolute-cell', 'both-parsers'), quick=1500, thorough=60000, shards=(8, 16),
